@@ -7,6 +7,9 @@ from fractions import Fraction
 from ..astutil import (call_name, calls_in, const_value, find_func, is_self_attr, names_in, parse_expr, parse_stmt,
                        replace_node)
 from ..frontend import AnalysisError, walk_function
+from ..cfg import CFG
+from ..dataflow import inline_env
+from ..astutil import subst_names
 from ..nf import RF, NFUnsupported, derivative, to_nf, _poly_sign
 from ..report import norm_text
 from ..symexec import MethodNF
@@ -19,6 +22,7 @@ TRUSTED_BASE = ["/verif/sa/nf.py (rational normal form with symbolic exponents, 
                 "python ast module",
                 "real-number semantics of numpy element-wise arithmetic; E, K, n, 1-nu^2, 1-2nu, 1+nu and the stress argument positive"]
 HL = "pylife.materiallaws.hookeslaw:"
+LAW_MODULES = ("pylife.materiallaws.hookeslaw", "pylife.materiallaws.rambgood", "pylife.materiallaws.true_stress_strain")
 RO = "pylife.materiallaws.rambgood:RambergOsgood"
 EXPLANATION = (
     "Proof (by normal-form equality, for all parameter values) of the algebraic clauses of C16. The method bodies are "
@@ -33,13 +37,89 @@ EXPLANATION = (
     "the Newton inversion stress() is wired to that strain function, that derivative, the start value E*|strain| and the "
     "sign of the strain. NOT covered: convergence of the two Newton inversions (stress, delta_stress).")
 EXPLANATION += (' R-C16-8 additionally requires the magnitude returned by RambergOsgood.stress to be the unmodified Newton root. R-C16-10 (not part of the proof rules): no method of the Hooke, Ramberg-Osgood and true-stress modules writes into an argument through any alias (effect analysis incl. out=, comprehensions, helper returns).')
+EXPLANATION += (" R-C16-11: every array conversion in the law modules (np.asarray / np.array / astype) is value preserving - no element type, a floating type, or the common type of all components - and the Hooke conversion helper returns np.asarray(component) for each component in order; this discharges the identity treatment of that helper in the symbolic execution.")
+EXPLANATION += (" R-C16-12: the residual and every derivative handed to the Newton solver contain no power of the iterate whose exponent can be negative for some 0 < n < 1 (interval arithmetic on the exponent, following the methods they call): such a term is infinite at the zero iterate that zero strain starts from.")
 ASSUMPTIONS = ["E, K, n > 0, -1 < nu < 1/2 (enforced by the constructor), positive stress argument for the derivative identity",
                "scipy.optimize.newton returns a root of func when it converges (not part of any obligation)"]
 
 
 def run(ctx):
-    for r in (_purity, _hooke, _ramberg, _newton, _true):
+    for r in (_purity, _conversion, _hooke, _ramberg, _newton, _newton_domain, _true):
         ctx.attempt(r)
+
+
+FLOAT_DTYPES = {"float", "np.float64", "np.double", "np.float_", "'float64'", "'float'", "'f8'", "np.longdouble", "np.float128"}
+CONVERTERS = ("np.asarray", "np.array", "np.asanyarray", "np.asfarray", "np.ascontiguousarray")
+
+
+def _conversion_sites(fn_node):
+    """Array conversions with an explicit element type: [(call, dtype expr, ok?)] - ok: a floating type, or the common type of
+    all converted values (np.result_type / np.promote_types / np.common_type)."""
+    out = []
+    for c in ast.walk(fn_node):
+        if not isinstance(c, ast.Call):
+            continue
+        cn = call_name(c) or ""
+        dt = None
+        if cn in CONVERTERS:
+            dt = next((k.value for k in c.keywords if k.arg == "dtype"), c.args[1] if len(c.args) > 1 else None)
+            if dt is None:
+                out.append((c, None, True))
+                continue
+        elif isinstance(c.func, ast.Attribute) and c.func.attr == "astype" and c.args:
+            dt = c.args[0]
+        else:
+            continue
+        t = norm_text(dt)
+        ok = t in FLOAT_DTYPES or (isinstance(dt, ast.Call) and (call_name(dt) or "") in
+                                   ("np.result_type", "np.promote_types", "np.common_type", "np.find_common_type")
+                                   and any(isinstance(a, ast.Starred) or norm_text(a) in FLOAT_DTYPES for a in dt.args))
+        out.append((c, dt, ok))
+    return out
+
+
+def _conversion(ctx):
+    """R-C16-11: the array conversion in front of every law keeps the values: np.asarray without an element type, with a
+    floating type, or with the common type of all components.  (The symbolic execution of the laws treats the conversion
+    helper as the identity; this rule discharges that.)"""
+    prog = ctx.prog
+    ctx.rule("R-C16-11", floor=5, what="input conversions of the material laws preserve the values (no narrowing element type)")
+    ex = ast.parse("def f(*args):\n    dtype = np.asarray(args[0]).dtype\n    return tuple(np.asarray(a, dtype=dtype) for a in args)\n").body[0]
+    if [ok for _, _, ok in _conversion_sites(ex)] != [True, False]:
+        raise AnalysisError("R-C16-11 built-in example not matched")
+    n = 0
+    for key, fi in sorted(prog.functions.items()):
+        if fi.module.name not in LAW_MODULES or fi.parent is not None:
+            continue
+        for c, dt, ok in _conversion_sites(fi.node):
+            n += 1
+            if ok:
+                ctx.holds(fi, c, "%s keeps the values" % norm_text(c)[:60])
+            else:
+                ctx.violated(fi, c, "%s converts to the element type %s, which is not a floating type or the common type of all "
+                             "components: when that type is integral (integer stresses, a literal 0 for a vanishing component) "
+                             "the other components are truncated before the law is applied" % (norm_text(c)[:60], norm_text(dt)),
+                             text="dtype " + norm_text(dt))
+    helper = prog.func(HL + "_Hookeslawcore._as_consistant_arrays")
+    rets = [x for x in walk_function(helper.node) if isinstance(x, ast.Return) and x.value is not None]
+    if len(rets) != 1:
+        raise AnalysisError("_as_consistant_arrays: single return expected")
+    env = inline_env(CFG(helper.node), rets[0])
+    env.pop("__ambiguous__", None)
+    full = subst_names(rets[0].value, env)
+    shape_ok = False
+    if isinstance(full, ast.Call) and call_name(full) in ("tuple", "list") and len(full.args) == 1 and \
+            isinstance(full.args[0], (ast.GeneratorExp, ast.ListComp)):
+        g = full.args[0]
+        if len(g.generators) == 1 and not g.generators[0].ifs and isinstance(g.generators[0].target, ast.Name) and \
+                norm_text(g.generators[0].iter) == helper.node.args.vararg.arg and isinstance(g.elt, ast.Call) and \
+                (call_name(g.elt) or "") in CONVERTERS and g.elt.args and norm_text(g.elt.args[0]) == g.generators[0].target.id:
+            shape_ok = True
+    if shape_ok:
+        ctx.holds(helper, rets[0], "the helper returns np.asarray(component) for every component, in order")
+    else:
+        ctx.violated(helper, rets[0], "_as_consistant_arrays does not return the converted components one by one in order: %s"
+                     % norm_text(full)[:100], text="helper shape")
 
 
 def _purity(ctx):
@@ -336,6 +416,122 @@ def _ramberg(ctx):
         ctx.holds(gs, r, "_get_abs_sign returns (|x|, sign x)", rule="R-C16-7")
     else:
         ctx.violated(gs, r, "_get_abs_sign does not return (|x|, sign(x))", rule="R-C16-7")
+
+
+INF = float("inf")
+
+
+def _exp_interval(e, env):
+    """Interval (lo, hi) of an exponent expression for 0 < n < 1; None if not decidable."""
+    c = const_value(e)
+    if isinstance(c, (int, float)) and not isinstance(c, bool):
+        return (float(c), float(c))
+    if (is_self_attr(e) and e.attr in ("_n", "n")) or (isinstance(e, ast.Name) and e.id == "n" and "n" not in env):
+        return (0.0, 1.0)
+    if isinstance(e, ast.Name) and e.id in env:
+        return _exp_interval(env[e.id], {k: v for k, v in env.items() if k != e.id})
+    if isinstance(e, ast.UnaryOp) and isinstance(e.op, (ast.USub, ast.UAdd)):
+        a = _exp_interval(e.operand, env)
+        if a is None:
+            return None
+        return (-a[1], -a[0]) if isinstance(e.op, ast.USub) else a
+    if isinstance(e, ast.BinOp):
+        a, b = _exp_interval(e.left, env), _exp_interval(e.right, env)
+        if a is None or b is None:
+            return None
+        if isinstance(e.op, ast.Add):
+            return (a[0] + b[0], a[1] + b[1])
+        if isinstance(e.op, ast.Sub):
+            return (a[0] - b[1], a[1] - b[0])
+        if isinstance(e.op, (ast.Mult, ast.Div)):
+            if isinstance(e.op, ast.Div):
+                if b[0] < 0 < b[1] or b == (0.0, 0.0):
+                    return None
+                b = (1.0 / b[1] if b[1] != 0 else -INF, 1.0 / b[0] if b[0] != 0 else INF)
+                if b[0] > b[1]:
+                    b = (b[1], b[0])
+
+            def mul(x, y):
+                return 0.0 if x == 0 or y == 0 else x * y
+            ps = [mul(a[0], b[0]), mul(a[0], b[1]), mul(a[1], b[0]), mul(a[1], b[1])]
+            return (min(ps), max(ps))
+    return None
+
+
+def _singular_powers(prog, ci, fn_node, arg, depth=0, seen=None):
+    """Powers of the iterate with an exponent that can be negative for 0 < n < 1 (infinite at a zero iterate), in the function
+    and the methods of the class it calls with the iterate: [(node, exponent text, interval or None)]"""
+    seen = seen if seen is not None else set()
+    out = []
+    env = {s_.targets[0].id: s_.value for s_ in ast.walk(fn_node) if isinstance(s_, ast.Assign) and isinstance(s_.targets[0], ast.Name)}
+    tainted = {arg}
+    changed = True
+    while changed:
+        changed = False
+        for s_ in ast.walk(fn_node):
+            if isinstance(s_, ast.Assign) and names_in(s_.value) & tainted:
+                for t in s_.targets:
+                    for nm in ([t.id] if isinstance(t, ast.Name) else [x.id for x in getattr(t, "elts", []) if isinstance(x, ast.Name)]):
+                        if nm not in tainted:
+                            tainted.add(nm)
+                            changed = True
+    for n in ast.walk(fn_node):
+        base = expo = None
+        if isinstance(n, ast.BinOp) and isinstance(n.op, ast.Pow):
+            base, expo = n.left, n.right
+        elif isinstance(n, ast.Call) and (call_name(n) or "") in ("np.power", "np.float_power", "pow", "math.pow") and len(n.args) == 2:
+            base, expo = n.args
+        if base is not None and names_in(base) & tainted:
+            iv = _exp_interval(expo, env)
+            if iv is None or iv[0] < 0:
+                out.append((n, norm_text(expo), iv))
+        if isinstance(n, ast.Call) and isinstance(n.func, ast.Attribute) and is_self_attr(n.func) and depth < 3:
+            callee = prog.lookup_method(ci, n.func.attr)
+            args = list(n.args) + [k.value for k in n.keywords]
+            if callee is not None and callee.key not in seen and any(names_in(a) & tainted for a in args):
+                seen.add(callee.key)
+                ps = [q for q in callee.params if q != "self"]
+                if ps:
+                    out.extend(_singular_powers(prog, ci, callee.node, ps[0], depth + 1, seen))
+    return out
+
+
+def _newton_domain(ctx):
+    """R-C16-12: every callable handed to the Newton solver is finite on the whole iterate domain.  The iterate starts at and may
+    stay at 0 (zero strain), and the vectorised solver multiplies by the step, so a term that is infinite at a zero iterate
+    (a power of the iterate whose exponent can be negative for some 0 < n < 1) turns the exact answer 0 into NaN."""
+    prog = ctx.prog
+    ctx.rule("R-C16-12", floor=2, what="callables handed to the Newton solver have no power of the iterate with a possibly negative exponent")
+    ci = prog.cls(RO)
+    f = prog.lookup_method(ci, "stress")
+    nested = {n.name: n for n in f.node.body if isinstance(n, ast.FunctionDef)}
+    c = [c for c in calls_in(f.node) if (call_name(c) or "").endswith("optimize.newton")]
+    if len(c) != 1:
+        raise AnalysisError("RambergOsgood.stress: newton call not found")
+    ex = ast.parse("def g(self, stress):\n    e = 1./self._n\n    return np.power(stress/self._K, e - 2.)\n").body[0]
+    exs = _singular_powers(prog, ci, ex, "stress")
+    if len(exs) != 1 or exs[0][2] is None or exs[0][2][0] != -1.0:
+        raise AnalysisError("R-C16-12 built-in example not matched: %s" % (exs,))
+    n = 0
+    for k in c[0].keywords:
+        if k.arg not in ("func", "fprime", "fprime2"):
+            continue
+        fn = nested.get(k.value.id) if isinstance(k.value, ast.Name) else (k.value if isinstance(k.value, ast.Lambda) else None)
+        if fn is None:
+            raise AnalysisError("newton %s=%s is not a local function" % (k.arg, norm_text(k.value)))
+        n += 1
+        arg = fn.args.args[0].arg
+        bad = _singular_powers(prog, ci, fn, arg)
+        for node, et, iv in bad:
+            ctx.violated(f, fn if isinstance(fn, ast.stmt) else c[0], "%s=%s contains %s with exponent %s %s for 0 < n < 1: "
+                         "infinite at a zero iterate (zero strain), which the vectorised solver turns into NaN for that element" %
+                         (k.arg, norm_text(k.value), norm_text(node)[:60], et,
+                          "ranging over (%g, %g)" % iv if iv else "of undecided sign"), text="singular %s" % k.arg)
+        if not bad:
+            ctx.holds(f, fn if isinstance(fn, ast.stmt) else c[0], "%s=%s: all powers of the iterate have exponents >= 0 for 0 < n < 1"
+                      % (k.arg, norm_text(k.value)))
+    if n < 2:
+        raise AnalysisError("newton call without func / fprime")
 
 
 def _newton(ctx):
